@@ -203,6 +203,10 @@ func (r *Runner) expandErr(err error) {
 	case errMsg == "invalid indirect expansion":
 		// TODO: These errors are treated as fatal by bash.
 		// Make the error type reflect that.
+	case errMsg == "division by zero", errMsg == "exponent less than 0":
+		// Like in Bash, arithmetic errors fail the command without exiting.
+		r.exit.code = 1
+		return
 	default:
 		return // other cases do not exit
 	}
